@@ -27,92 +27,132 @@ func Minimise(p Property, tier string, v *Violation, t, s []uint32, maxExecs int
 	}
 	// normalise first
 	try(t, s)
-	for round := 0; round < 6; round++ {
-		progress := false
-		// schedule tape first: all-canonical schedule if possible
-		if len(s) > 0 && try(t, nil) {
-			progress = true
+	get := func(which int) []uint32 {
+		if which == 0 {
+			return t
 		}
-		for _, which := range []int{0, 1} {
-			get := func() []uint32 {
-				if which == 0 {
-					return t
-				}
-				return s
+		return s
+	}
+	attempt := func(which int, c []uint32) bool {
+		if which == 0 {
+			if equalTape(c, t) {
+				return false
 			}
-			attempt := func(c []uint32) bool {
-				if which == 0 {
-					return try(c, s)
+			return try(c, s)
+		}
+		if equalTape(c, s) {
+			return false
+		}
+		return try(t, c)
+	}
+	// zeroPass: ddmin-style, blocks from half the tape down to single entries
+	zeroPass := func(which int) bool {
+		progress := false
+		for bs := (len(get(which)) + 1) / 2; bs >= 1; bs /= 2 {
+			for i := 0; i < len(get(which)); i += bs {
+				c := get(which)
+				j := i + bs
+				if j > len(c) {
+					j = len(c)
 				}
-				return try(t, c)
-			}
-			// truncate tail
-			for n := len(get()) / 2; n >= 1; n /= 2 {
-				for len(get()) >= n {
-					c := get()
-					if !attempt(append([]uint32(nil), c[:len(c)-n]...)) {
+				nz := false
+				for _, x := range c[i:j] {
+					if x != 0 {
+						nz = true
 						break
 					}
+				}
+				if !nz {
+					continue
+				}
+				cand := append([]uint32(nil), c...)
+				for k := i; k < j; k++ {
+					cand[k] = 0
+				}
+				if attempt(which, cand) {
 					progress = true
 				}
 			}
-			// delete blocks
-			for _, bs := range []int{16, 8, 4, 2, 1} {
-				for i := len(get()) - bs; i >= 0; i-- {
-					c := get()
-					if i+bs > len(c) {
-						continue
-					}
-					cand := append(append([]uint32(nil), c[:i]...), c[i+bs:]...)
-					if attempt(cand) {
-						progress = true
-					}
-				}
-			}
-			// zero blocks
-			for _, bs := range []int{8, 2, 1} {
-				for i := 0; i+bs <= len(get()); i++ {
-					c := get()
-					nz := false
-					for _, x := range c[i : i+bs] {
-						if x != 0 {
-							nz = true
-						}
-					}
-					if !nz {
-						continue
-					}
-					cand := append([]uint32(nil), c...)
-					for j := i; j < i+bs; j++ {
-						cand[j] = 0
-					}
-					if attempt(cand) {
-						progress = true
-					}
-				}
-			}
-			// lower values
-			for i := 0; i < len(get()); i++ {
-				c := get()
-				if c[i] == 0 {
+		}
+		return progress
+	}
+	deletePass := func(which int) bool {
+		progress := false
+		for bs := (len(get(which)) + 1) / 2; bs >= 1; bs /= 2 {
+			for i := len(get(which)) - bs; i >= 0; i -= bs {
+				c := get(which)
+				if i+bs > len(c) {
 					continue
 				}
-				for _, nv := range []uint32{c[i] / 2, c[i] - 1} {
-					c = get()
-					if i >= len(c) || nv >= c[i] {
-						continue
-					}
-					cand := append([]uint32(nil), c...)
-					cand[i] = nv
-					if attempt(cand) {
-						progress = true
-					}
+				cand := append(append([]uint32(nil), c[:i]...), c[i+bs:]...)
+				if attempt(which, cand) {
+					progress = true
 				}
 			}
+		}
+		return progress
+	}
+	lowerPass := func(which int) bool {
+		progress := false
+		for i := 0; i < len(get(which)); i++ {
+			c := get(which)
+			if c[i] == 0 {
+				continue
+			}
+			for _, nv := range []uint32{c[i] / 2, c[i] - 1} {
+				c = get(which)
+				if i >= len(c) || nv >= c[i] {
+					continue
+				}
+				cand := append([]uint32(nil), c...)
+				cand[i] = nv
+				if attempt(which, cand) {
+					progress = true
+				}
+			}
+		}
+		return progress
+	}
+	for round := 0; round < 5; round++ {
+		progress := false
+		// the schedule first: an all-canonical schedule if possible, else as few
+		// non-canonical events as possible
+		if len(s) > 0 && try(t, nil) {
+			progress = true
+		}
+		if zeroPass(1) {
+			progress = true
+		}
+		if deletePass(0) {
+			progress = true
+		}
+		if zeroPass(0) {
+			progress = true
+		}
+		if lowerPass(0) {
+			progress = true
+		}
+		if zeroPass(1) {
+			progress = true
+		}
+		if lowerPass(1) {
+			progress = true
 		}
 		if !progress || execs >= maxExecs || time.Now().After(deadline) {
 			break
 		}
 	}
 	return cur, t, s, execs
+}
+
+func equalTape(a, b []uint32) bool {
+	if len(a) != len(b) {
+		return false
+	}
+	for i := range a {
+		if a[i] != b[i] {
+			return false
+		}
+	}
+	return true
 }
